@@ -405,3 +405,64 @@ func TestC04AfterFault(t *testing.T) {
 	})
 	col.Exhaustive = true
 }
+
+// ---- wide nodes ---------------------------------------------------------------------------------------------------------
+
+type c04Wide struct {
+	W      int    `json:"w"`     // children of the root
+	Grand  int    `json:"grand"` // every Grand-th child has W2 children of its own (0: none)
+	W2     int    `json:"w2"`
+	Format string `json:"format"`
+	Entry  string `json:"entry"`
+}
+
+func init() { registerReplay("c04w", c04WideCheck) }
+
+func c04WideCheck(c c04Wide) string {
+	r := &model.T{Name: "wide"}
+	for i := 0; i < c.W; i++ {
+		k := &model.T{Name: fmt.Sprintf("k%d", i)}
+		if c.Grand > 0 && i%c.Grand == 0 {
+			for j := 0; j < c.W2; j++ {
+				k.Kids = append(k.Kids, &model.T{Name: fmt.Sprintf("g%d-%d", i, j)})
+			}
+		}
+		r.Kids = append(r.Kids, k)
+	}
+	msg := c04Check(c04Case{Forest: model.Forest{r}, Format: c.Format, Entry: c.Entry})
+	if msg == "" {
+		return ""
+	}
+	return fmt.Sprintf("a root with %d children (every %d-th with %d children of its own), format=%s entry=%s:\n%s", c.W, c.Grand, c.W2, c.Format, c.Entry, truncate(msg, 1500))
+}
+
+func TestC04Wide(t *testing.T) {
+	col := coll("C04", "wide")
+	ws := []int{255, 256, 257, 1023, 1024, 1025, 1027}
+	if thorough() {
+		ws = append(ws, 2047, 2048, 2050, 4096, 4099, 10000)
+	}
+	col.Rule = fmt.Sprintf("one root with W children, W in %v, alone and with every 100th child having 3 or 1030 children of its own x format x entry (md, noiter, root, md-massive); oracle as in the other parts (decode, compare with the tree)", ws)
+	n := 0
+	for _, w := range ws {
+		for _, g := range [][2]int{{0, 0}, {100, 3}, {500, 1030}} {
+			for _, format := range []string{"json", "yaml", "toml"} {
+				for _, entry := range []string{"md", "noiter", "root", "md-massive"} {
+					n++
+					if n%nshards != shard {
+						continue
+					}
+					if !thorough() && n%3 != 0 {
+						continue
+					}
+					c := c04Wide{W: w, Grand: g[0], W2: g[1], Format: format, Entry: entry}
+					col.eval(true, hash64(fmt.Sprint(c)), "format:"+format, "entry:"+entry, fmt.Sprintf("w>=1024:%v", w >= 1024))
+					col.sample(func() any { return c })
+					if msg := c04WideCheck(c); msg != "" {
+						violation(t, "C04", "c04w", c, msg)
+					}
+				}
+			}
+		}
+	}
+}
